@@ -311,6 +311,10 @@ def certify (a : Acc) : IO Acc := do
   let orth := maxDiff (matMul (adjoint s.V) s.V) (ident s.dim)
   let herm := maxDiff H (adjoint H)
   let mut a := a.bump "eigensystems_certified"
+  -- NaN / infinite entries are invisible to max-norm comparisons: look for them explicitly
+  let badV := s.V.any fun row => row.any fun z => z.re.isNaN || z.im.isNaN || z.re.isInf || z.im.isInf
+  let badE := s.E.any fun x => x.isNaN || x.isInf
+  if badV || badE then a ← fail a "C03" s!"the reported eigen-system contains NaN or infinite entries (eigenvectors: {badV}, eigenvalues: {badE})"
   if herm > 1.0e-12 * hn then a ← fail a "C04" s!"Hamiltonian matrix is not Hermitian (max |H - H†| = {herm})"
   -- backward error relative to the size of H itself (a model whose couplings are all tiny must be diagonalised as well)
   if res > 1.0e-9 * (maxAbs H + 1.0e-300) then a ← fail a "C03" s!"reported eigenvectors do not satisfy H v = E v on the full Fock space (residual {res})"
